@@ -15,13 +15,21 @@ import vlib
 LEVEL = "model_checking"
 HARNESS = "c02_convert"
 INV = "RepValid LawsHold ChunksExist Emit"
-ALLOPS = ["conv", "clone", "transp", "transpinto", "tinplace", "permute", "layout", "graph", "copy", "format", "poke"]
+OLDOPS = ["conv", "clone", "transp", "transpinto", "tinplace", "permute", "layout", "graph", "copy", "format", "poke"]
+# building / rebuilding routes: mirror = SparseMatrixCSCR(csr, VectorMirror), convctor = converting constructors MT(const MT_&),
+# (and dst = src.clone(mode)), alloc = allocating constructors, factory = SparseMatrixFactory::make_csr, convrev = SparseMatrixCSR::convert_reverse,
+# permctor = the Adjacency::Permutation objects given to permute are built through all their construction routes
+BUILDOPS = ["mirror", "convctor", "alloc", "factory", "convrev", "permctor"]
+ALLOPS = OLDOPS + BUILDOPS
 ALLTY = ["f64u64", "f64u32", "f32u32"]
 MAXPAR = 6
 
 
 def cfgd(name, seeds, ops=None, depth=1, ns=2, types=None, perm="few", pal=1, seedtypes=None, simulate=None, workers=1):
-    return dict(name=name, seeds=seeds, ops=ops or ALLOPS, depth=depth, ns=ns, types=ALLTY if types is None else types, perm=perm, pal=pal,
+    ops = list(ops or ALLOPS)
+    if "permute" in ops and "permctor" not in ops:
+        ops.append("permctor")          # costs no extra histories: the construction route is a function of the call
+    return dict(name=name, seeds=seeds, ops=ops, depth=depth, ns=ns, types=ALLTY if types is None else types, perm=perm, pal=pal,
                 seedtypes=seedtypes or ["f64u64"], simulate=simulate, workers=workers)
 
 
@@ -29,11 +37,12 @@ PAL = ["csr_pal", "cscr_pal", "banded_pal", "dense_pal", "bcsr_pal"]
 
 
 def configs(tier):
-    PATOPS = ["conv", "transp", "transpinto", "tinplace", "permute", "graph", "layout"]      # calls whose result depends on the sparsity pattern
+    PATOPS0 = ["conv", "transp", "transpinto", "tinplace", "permute", "graph", "layout"]      # calls whose result depends on the sparsity pattern
+    PATOPS = PATOPS0 + ["mirror", "convctor", "factory", "permctor"]                                       # ... and the building routes that do
     c = [
         # every call once on every seed matrix (exhaustive over inputs)
         cfgd("single: csr shapes <= 3x2/2x3 + entry-free 3x5, all patterns, all permutation pairs", ["csr_small"], perm="all"),
-        cfgd("single: csr 3x3 all 512 patterns, pattern dependent calls", ["csr_33"], ops=PATOPS),
+        cfgd("single: csr 3x3 all 512 patterns, pattern dependent calls incl. every row-selecting mirror", ["csr_33"], ops=PATOPS0 + ["mirror"]),
         cfgd("single: cscr all patterns x row lists", ["cscr_small"]),
         cfgd("single: banded all offset sets", ["banded_small"]),
         cfgd("single: dense", ["dense_small"]),
@@ -44,30 +53,32 @@ def configs(tier):
         cfgd("double transpose", ["csr_small", "dense_small", "bcsr22", "bcsr23", "bcsr32"], ops=["transp", "transpinto", "tinplace"], depth=2, ns=3, types=[]),
         cfgd("permute twice (all pairs of permutation pairs)", ["csr_perm", "bcsr_perm"], ops=["permute"], depth=2, ns=1, types=[], perm="all"),
         # aliasing: clone / layout, then poke, format, copy
-        cfgd("alias chains of 3 calls on 3 slots: clone, layout, poke, copy, dense transpose_inplace", ["mini"], ops=["clone", "poke", "copy", "layout", "tinplace", "transpinto"],
-             depth=3, ns=3, types=[]),
-        cfgd("alias chains of 2 calls on 2 slots incl. type-converting clones and converts", PAL, ops=["clone", "conv", "poke", "copy", "format", "layout"],
-             depth=2, ns=2, types=["f32u32"]),
+        cfgd("alias chains of 3 calls on 3 slots: clone, layout, poke, copy, dense transpose_inplace, convert_reverse", ["mini"],
+             ops=["clone", "poke", "copy", "layout", "tinplace", "transpinto", "convrev"], depth=3, ns=3, types=[]),
+        cfgd("alias chains of 2 calls on 2 slots incl. type-converting clones and converts, allocate + copy, convert_reverse", PAL,
+             ops=["clone", "conv", "poke", "copy", "format", "layout", "alloc", "convrev"], depth=2, ns=2, types=["f32u32"]),
         # general chains
         cfgd("chains of 2 calls, 2 slots, all calls", PAL, depth=2, ns=2, types=[]),
-        cfgd("chains of 3 calls, 2 slots: convert, transpose, permute, weak/shallow... clone, poke", ["mini"], depth=3, ns=2, types=[],
-             ops=["conv", "transp", "transpinto", "tinplace", "permute", "clone", "poke"]),
+        cfgd("chains of 3 calls, 2 slots: convert, transpose, permute, weak/shallow... clone, poke, mirror, convert_reverse", ["mini"], depth=3, ns=2, types=[],
+             ops=["conv", "transp", "transpinto", "tinplace", "permute", "clone", "poke", "mirror", "convrev"]),
     ]
     if tier == "thorough":
         c += [
-            cfgd("single: csr 3x3 all 512 patterns, remaining calls", ["csr_33"], ops=["clone", "copy", "format", "poke"]),
-            cfgd("single: csr 4x4, all 4368 patterns with 5 entries: convert, transpose, permute", ["csr_44"], ops=["conv", "transp", "permute"], workers=2),
+            cfgd("single: csr 3x3 all 512 patterns, remaining calls", ["csr_33"], ops=["clone", "copy", "format", "poke", "conv", "convctor", "alloc", "factory"]),
+            cfgd("single: csr 4x4, all 4368 patterns with 5 entries: convert, transpose, permute, mirror", ["csr_44"], ops=["conv", "transp", "permute", "mirror"], workers=2),
             cfgd("single: cscr 3x3", ["cscr_33"]),
             cfgd("single: banded 4x4, 4x2, 1x4", ["banded_44"]),
             cfgd("single: bcsr 3x3 blocks", ["bcsr_33"], ops=PATOPS),
             cfgd("single: csr 3x3 all patterns, stored zeros, all permutation pairs", ["csr_33"], pal=2, perm="all", types=["f32u32"],
-                 ops=["conv", "transp", "permute", "graph"]),
+                 ops=["conv", "transp", "permute", "graph", "mirror", "factory"]),
             cfgd("alias chains of 3 calls on 3 slots, chain palette (csr, dense, bcsr)", ["csr_pal", "dense_pal", "bcsr_pal"],
                  ops=["clone", "poke", "copy", "format", "layout", "tinplace", "transpinto"], depth=3, ns=3, types=[]),
             cfgd("alias chains of 4 calls on 2 slots", ["mini"], ops=["clone", "poke", "copy"], depth=4, ns=2, types=[]),
             cfgd("permute twice, all csr shapes <= 3x2/2x3", ["csr_small"], ops=["permute"], depth=2, ns=1, types=[], perm="all"),
             cfgd("chains of 3 calls, 2 slots, all calls", ["mini"], depth=3, ns=2, types=[]),
             cfgd("chains of 4 calls, 2 slots: convert, transpose, permute, poke", ["mini"], depth=4, ns=2, types=[], ops=["conv", "transp", "permute", "poke"]),
+            cfgd("rebuild chains of 3 calls, 2 slots: mirror, allocate, full copy, layout, convert_reverse, factory, convert", ["csr_pal", "cscr_pal", "bcsr_pal"], depth=3, ns=2, types=[],
+                 ops=["mirror", "alloc", "copy", "layout", "convrev", "factory", "conv", "convctor", "poke"]),
             cfgd("random chains of 10 calls on 3 slots (simulate)", PAL, depth=10, ns=3, simulate=600, workers=4, types=["f32u32"]),
             cfgd("random chains of 16 calls on 3 slots, stored zeros (simulate)", PAL, depth=16, ns=3, simulate=200, pal=2, workers=4, types=["f32u32"]),
         ]
@@ -198,7 +209,7 @@ def judge(binary, cases, results):
 
 
 def hist_key(c):
-    return json.dumps([[s["op"], s["src"], s["dst"], s["fmt"], s["ty"], s["mode"], s["p"], s["q"], s["k"], s["full"]] for s in c["steps"][1:]]
+    return json.dumps([[s["op"], s["src"], s["dst"], s["fmt"], s["ty"], s["mode"], s["p"], s["q"], s["k"], s["full"], s.get("ctor"), s.get("v"), s.get("tri"), s.get("pk"), s.get("qk")] for s in c["steps"][1:]]
                       + [c["steps"][0]["exp"][0]["st"]], sort_keys=True)
 
 
